@@ -25,7 +25,7 @@ def cases(rng, tier):
     n = 250 if tier == "quick" else 4000
     for i in range(n):
         big = tier == "thorough" and i % 400 == 0
-        prog, labels = with_probes(rng, G.gen_layout(rng, big=big))
+        prog, labels = with_probes(rng, G.gen_shrink(rng) if (i % 5 == 4 and not big) else G.gen_layout(rng, big=big))
         cs.append(G.finish(prog, rng, ["layout-big" if big else "layout"], extra={"probes": len(labels)}))
     return cs
 
